@@ -35,21 +35,26 @@ def emit_all(emit):
     emit("vsmallIs1em6", "Bool", bool(constants.VSMALL == 1e-6), "constants.VSMALL == 1e-6 (the guard the model hard-codes)")
 
     # the statement skeletons of the methods on the execution path of `CellBase.quality`, read off the current source
-    # text with `ast` (see cbv/tables/c15.py: one string per statement, `depth:text`, locals renamed a0, a1, …)
+    # text with `ast` (see cbv/tables/c15.py: one string per statement, `depth:text`, locals renamed a0, a1, …); named by
+    # Props/C14.lean only; every method in its own group
     from .c15 import skeleton
 
+    guard = getattr(emit, "guard", lambda fn, *a, **k: fn(*a, **k))
     S = "List String"
-    emit("c14SrcQuality", S, skeleton(CellBase.quality), "CellBase.quality (order of the terms, q_scale constants, guards)")
-    emit("c14SrcEdgeLengths", S, skeleton(CellBase.get_edge_lengths), "CellBase.get_edge_lengths")
-    emit("c14SrcPoints", S, skeleton(CellBase.points), "CellBase.points")
-    emit("c14SrcCenter", S, skeleton(CellBase.center), "CellBase.center")
-    emit("c14SrcSidePoints", S, skeleton(CellBase.get_side_points), "CellBase.get_side_points")
-    emit("c14SrcSideCenter", S, skeleton(CellBase.get_side_center), "CellBase.get_side_center")
-    emit("c14SrcQuadNormal", S, skeleton(QuadCell.normal), "QuadCell.normal (corners 0, 1, 3)")
-    emit("c14SrcQuadSideNormals", S, skeleton(QuadCell.get_side_normals), "QuadCell.get_side_normals")
-    emit("c14SrcQuadInnerAngles", S, skeleton(QuadCell.get_inner_angles), "QuadCell.get_inner_angles")
-    emit("c14SrcHexSideNormals", S, skeleton(HexCell.get_side_normals), "HexCell.get_side_normals")
-    emit("c14SrcHexInnerAngles", S, skeleton(HexCell.get_inner_angles), "HexCell.get_inner_angles")
-    emit("c14SrcGridQuality", S, skeleton(GridBase.quality), "GridBase.quality")
-    emit("c14SrcJunctionQuality", S, skeleton(Junction.quality), "Junction.quality")
-    emit("c14SrcGridUpdate", S, skeleton(GridBase.update), "GridBase.update")
+    for name, get, doc in [
+        ("c14SrcQuality", lambda: CellBase.quality, "CellBase.quality (order of the terms, q_scale constants, guards)"),
+        ("c14SrcEdgeLengths", lambda: CellBase.get_edge_lengths, "CellBase.get_edge_lengths"),
+        ("c14SrcPoints", lambda: CellBase.points, "CellBase.points"),
+        ("c14SrcCenter", lambda: CellBase.center, "CellBase.center"),
+        ("c14SrcSidePoints", lambda: CellBase.get_side_points, "CellBase.get_side_points"),
+        ("c14SrcSideCenter", lambda: CellBase.get_side_center, "CellBase.get_side_center"),
+        ("c14SrcQuadNormal", lambda: QuadCell.normal, "QuadCell.normal (corners 0, 1, 3)"),
+        ("c14SrcQuadSideNormals", lambda: QuadCell.get_side_normals, "QuadCell.get_side_normals"),
+        ("c14SrcQuadInnerAngles", lambda: QuadCell.get_inner_angles, "QuadCell.get_inner_angles"),
+        ("c14SrcHexSideNormals", lambda: HexCell.get_side_normals, "HexCell.get_side_normals"),
+        ("c14SrcHexInnerAngles", lambda: HexCell.get_inner_angles, "HexCell.get_inner_angles"),
+        ("c14SrcGridQuality", lambda: GridBase.quality, "GridBase.quality"),
+        ("c14SrcJunctionQuality", lambda: Junction.quality, "Junction.quality"),
+        ("c14SrcGridUpdate", lambda: GridBase.update, "GridBase.update"),
+    ]:
+        guard(lambda name=name, get=get, doc=doc: emit(name, S, skeleton(get()), doc))
